@@ -18,7 +18,7 @@ from hv import Case
 
 SPEC = {
     "lean_modules": ["Honeycomb.Props.C16", "Honeycomb.Props.C16Cross", "Honeycomb.Props.C16Clip", "Honeycomb.Props.C16Insert", "Honeycomb.Props.C16Grid", "Honeycomb.Props.C16Edges",
-                     "Honeycomb.Props.C16EdgeInsert", "Honeycomb.Props.C16Chain", "Honeycomb.Props.C16ChainGrid", "Honeycomb.Props.C16Step5Total", "Honeycomb.Props.C16Step5Pipe"],
+                     "Honeycomb.Props.C16EdgeInsert", "Honeycomb.Props.C16Chain", "Honeycomb.Props.C16ChainGrid", "Honeycomb.Props.C16Step5Total", "Honeycomb.Props.C16InsertTotal", "Honeycomb.Props.C16Step5Pipe"],
     "required_theorems": ["C16_orientation_rejection_iff", "C16_orientation_accepts_iff_nodup", "C16_closed_loop_accepted",
                           "C16_repeated_origin_rejected", "C16_repeated_endpoint_rejected", "C16_grid_margins", "C16_grid_tight",
                           "C16_crossings_sound", "C16_crossings_on_grid_lines", "C16_crossings_complete", "C16_crossings_sorted", "C16_crossings_count", "C16_metadata_order", "C16_metadata_same_intersections", "C16_metadata_spec",
@@ -36,7 +36,8 @@ SPEC = {
                           "C16_sideCoords_gridMap10", "C16_hitDartsOK_gridMap10", "C16_crossings_are_vertices_on_grid",
                           "C16_poi_are_vertices_on_grid", "C17_poi_are_node_vertices_on_grid",
                           "C16_buildBaseEdge_ok_iff", "C16_stepFive_total_partial", "C16_pipeline_total_nopoi_partial",
-                          "C16_pipeline_total_nopoi_on_grid_partial",
+                          "C16_pipeline_total_nopoi_on_grid_partial", "C16_insertVertices_total_partial", "C16_stepFive_total_indep_partial",
+                          "C16_pipeline_total_partial", "C16_pipeline_total_on_grid_partial",
                           "C17_poi_are_node_vertices", "C16_deleteDarts_spec", "C16_deleteDarts_order_independent",
                           "C16_clip_spec", "C16_clip_WF", "C16_clip_order_independent", "C16_clipLeft_spec", "C16_clipRight_spec",
                           "C16_between_crossings_one_cell"],
@@ -181,14 +182,17 @@ SPEC = {
         "C16_crossings_sound, for geometries inside the grid with one cell of margin = C16_grid_margins), so "
         "C16_crossings_are_vertices_on_grid / C16_poi_are_vertices_on_grid / C17_poi_are_node_vertices_on_grid carry NO hypothesis about the "
         "map. REMAINING NAMED HYPOTHESES of the full forms, each with a satisfiable example and evaluated by "
-        "the `whole pipeline` tie on every case: success of the run — for step 5 a DECIDABLE condition is now proved (Props/C16Step5Total.lean): "
-        "C16_buildBaseEdge_ok_iff (build_base_edge succeeds EXACTLY when start has a successor, end a predecessor and beta1(start) != end: the "
-        "consecutive-darts panic is its only failure) and C16_stepFive_total_partial (all of insert_edges_in_map succeeds when every edge is "
-        "`Ready` in the map BEFORE the step, for edges without intermediate point of interest; with intermediates the forward totality of "
-        "the editing part of insert_vertices_on_edge is missing: C14 proves Ok => structure, not => Ok); inside the pipeline "
-        "(Props/C16Step5Pipe.lean) C16_pipeline_total_nopoi_partial / _on_grid_partial: for geometries WITHOUT point of interest every edge of "
-        "step 4 has no intermediate (edgeData_nopoi), so `pipelineReady` (steps 2-3 succeed, every edge Ready in the map after step 3: decidable, "
-        "checked before step 5) implies that the whole pipeline succeeds; "
+        "the `whole pipeline` tie on every case: success of the run — for step 5 DECIDABLE sufficient conditions are now proved, forwards "
+        "(Props/C16Step5Total.lean, C16InsertTotal.lean, C16Step5Pipe.lean): C16_buildBaseEdge_ok_iff (build_base_edge succeeds EXACTLY when "
+        "start has a successor, end a predecessor and beta1(start) != end: the consecutive-darts panic is its only failure); "
+        "C16_insertVertices_total_partial (insert_vertices_on_edge answers Ok on a 2-linked edge with successors, free distinct spare darts, "
+        "positions in ]0,1[ and both end points valued: the converse of the Ok => structure theorems of C14); C16_stepFive_total_partial (edges "
+        "without intermediate point, possibly sharing darts) and C16_stepFive_total_indep_partial (any number of intermediate points, pairwise "
+        "independent edges): insert_edges_in_map succeeds when every edge is Ready (+ a coordinate at both end points) IN THE MAP BEFORE THE "
+        "STEP — the conditions are transported along the loop; inside the pipeline C16_pipeline_total_(nopoi_)partial / _on_grid_partial: "
+        "`pipelineReady(All)` (steps 2-3 succeed, step 4 yields its edges, the edges Ready / valued / independent in the map after step 3: "
+        "decidable, checked before step 5, evaluated by `decide` in the examples) implies pipelineMap = some m. NOT proved: the same for the "
+        "loop of steps 2-3 (kernel totality available, transport along insert_intersections not done); Ready / Indep from the geometry; "
         "SideCoords (the grid map carries the side the kernel computed at every crossing dart: builder coordinates + C16_crossings_sound; "
         "clause `position`); HitDartsOK (about the grid map only: the darts the slots name are in use, have a successor and are 2-linked — "
         "interior grid edges); KeysAreHitEdges (about the HashMap only: it yields each key once and its keys are exactly the edges hit); the keys "
